@@ -3,7 +3,7 @@
 From Coq Require Import String.
 From Coq Require Import List Ascii ZArith Bool Lia.
 From CGV Require Import Base.PyBase Base.PyVal Base.NxGraph Resolve.Bonding Resolve.GraphOps Resolve.Pipeline
-     Resolve.MapDefs Resolve.Witness.
+     Resolve.MapDefs Resolve.Witness Resolve.VirtualProofs.
 Import ListNotations.
 Open Scope Z_scope.
 
@@ -29,4 +29,40 @@ Example C11_map_last :
   virtual_not_last fd_AB base_ABV = false /\ pair_check base_AB base_ABV 0 0 2 = Ok (true, true, true).
 Proof. split; vm_compute; reflexivity. Qed.
 
+(** ---- the instantiation loop *)
+(** skip_virtual: a fragment-less node whose edges all have order 0 adds nothing ... *)
+Theorem C11_skip_virtual : forall fd st mn fv,
+  aget (S "fragname") (na mn) = Some fv -> lookup_fragment fd fv = None -> Forall zero_order (nadj mn) ->
+  disc_step fd st mn = Ok st.
+Proof. exact skip_virtual. Qed.
+(** ... wherever it stands in the coarse graph: the disconnected fine graph and the fragment graphs are those
+    of the coarse node list without it (the running fragid is unchanged) *)
+Theorem C11_skip_virtual_anywhere : forall fd pre mn post fv,
+  aget (S "fragname") (na mn) = Some fv -> lookup_fragment fd fv = None -> Forall zero_order (nadj mn) ->
+  resolve_disconnected fd ((pre ++ mn :: post)%list) = resolve_disconnected fd ((pre ++ post)%list).
+Proof. exact skip_virtual_run. Qed.
+(** C11_reject: a fragment-less node with an edge of order >= 1 raises SyntaxError *)
+Theorem C11_reject : forall fd pre mn post st fv,
+  fold_res (disc_step fd) pre (gempty, []) = Ok st ->
+  aget (S "fragname") (na mn) = Some fv -> lookup_fragment fd fv = None ->
+  Forall has_order (nadj mn) -> Exists nonzero_order (nadj mn) ->
+  resolve_disconnected fd ((pre ++ mn :: post)%list) = Err (ESyntax (S "nofrag")).
+Proof. exact C11_reject_run. Qed.
+Example C11_reject_nonvacuous : run_coarse base_V1AB = Err (ESyntax (S "nofrag")).
+Proof. vm_compute. reflexivity. Qed.
+
+(** ---- order-0 edges make no bond (corollaries of the proved bond fold of C03) *)
+Theorem C11_no_bond_for_order0 : forall legacy arom a b s acc, edge_loop legacy arom (Z.to_nat 0) a b s acc = Ok (s, acc).
+Proof. exact no_bond_for_order0. Qed.
+Theorem C11_zero_edge_inert : forall legacy arom pre a b post s acc,
+  edges_from_bonding legacy arom ((pre ++ (a, b, 0) :: post)%list) s acc = edges_from_bonding legacy arom ((pre ++ post)%list) s acc.
+Proof. exact zero_edge_inert. Qed.
+Theorem C11_only_zero_edges_no_bonds : forall legacy arom edges, Forall (fun e : Z * Z * Z => snd e <= 0) edges ->
+  forall s acc, edges_from_bonding legacy arom edges s acc = Ok (s, acc).
+Proof. exact no_bond_for_nonpositive. Qed.
+
 Print Assumptions C11_map_refuted.
+Print Assumptions C11_skip_virtual.
+Print Assumptions C11_skip_virtual_anywhere.
+Print Assumptions C11_reject.
+Print Assumptions C11_zero_edge_inert.
